@@ -449,6 +449,8 @@ func runC11(c *Ctx) {
 			}
 		})
 		c.check(cls != nil && del != nil && cls.Block() == del.Block(), "R4", "RequestServer sweep deletes", p.Pos(rsServe.Pos()), "swept requests are removed from the table", "the sweep closes requests but leaves them in the table")
+	} else {
+		c.missing("R4", "(*RequestServer).Serve")
 	}
 
 	// ---------- R5 failed opens drop their handle; R13 a handle is in the table only once it has been issued ----------
@@ -562,6 +564,8 @@ func runC11(c *Ctx) {
 				"the Request is entered into the handle table (at "+early+") before its open has succeeded: READ and WRITE run on other workers and handles are predictable counters, so a pipelined READ or WRITE naming the handle finds a Request that open is still writing (a data race on Request.Method) or whose open then fails — a handle that was never issued is served")
 		}
 		c.check(n >= 2, "R5", "open sites", p.Pos(worker.Pos()), fmt.Sprintf("%d open sites", n), "fewer than 2 open sites in packetWorker (OPEN and OPENDIR)")
+	} else {
+		c.missing("R5", "(*RequestServer).packetWorker")
 	}
 
 	// ---------- R6 / R7 ownership of handler objects ----------
